@@ -1,4 +1,5 @@
 import FxVerif.Model.C12
+import FxVerif.Proofs.C12Abi
 /-!
 # C12 confirm handler: acceptance characterisation, refinement of the regenerated key plan to the specification, and the
 invariant over arbitrary op sequences (object stores, registry writes, confirms, pruning)
@@ -384,5 +385,26 @@ theorem runG_eq_run (h : handlerPlans.map (·.kind) = ["batch", "oracleSet", "br
   | cons op ops ih =>
     simp only [runG, run, List.foldl_cons] at ih ⊢
     rw [stepG_eq_step h hx, ih]
+
+/-! ## store keys: byte layout is injective -/
+
+theorem toBE8_inj {a b : Nat} (ha : a < 2 ^ 64) (hb : b < 2 ^ 64) (h : toBE 8 a = toBE 8 b) : a = b := by
+  have h1 := fromBE_toBE 8 a
+  have h2 := fromBE_toBE 8 b
+  rw [h] at h1
+  have e : (256 : Nat) ^ 8 = 2 ^ 64 := by decide
+  rw [e] at h1 h2
+  rw [Nat.mod_eq_of_lt ha] at h1
+  rw [Nat.mod_eq_of_lt hb] at h2
+  omega
+
+/-- `p ++ t ++ be8 n ++ o` determines `t`, `n`, `o` when the texts have one length -/
+theorem key_layout_inj (p t1 t2 o1 o2 : List Nat) (n1 n2 : Nat) (hl : t1.length = t2.length)
+    (h1 : n1 < 2 ^ 64) (h2 : n2 < 2 ^ 64)
+    (h : p ++ (t1 ++ (toBE 8 n1 ++ o1)) = p ++ (t2 ++ (toBE 8 n2 ++ o2))) : t1 = t2 ∧ n1 = n2 ∧ o1 = o2 := by
+  have h' := List.append_cancel_left h
+  obtain ⟨ht, hr⟩ := List.append_inj h' hl
+  obtain ⟨hn, ho⟩ := List.append_inj hr (by simp)
+  exact ⟨ht, toBE8_inj h1 h2 hn, ho⟩
 
 end FxVerif.Model.C12
